@@ -11,7 +11,7 @@ LEMMA InitInv == SMInit => Inv
   BY NonZero DEF SMInit, Inv, TypeOK, Consistent
 
 LEMMA StepInv == Inv /\ [SMNext]_svars => Inv'
-  BY NonZero DEF Inv, TypeOK, Consistent, SMNext, svars, Connect, Config, Upload, Search, Foreign, Unknown, Close, Outcomes
+  BY NonZero DEF Inv, TypeOK, Consistent, SMNext, svars, Connect, Config, Upload, Search, Foreign, Unknown, Malformed, Close, Outcomes
 
 THEOREM Safety == SMSpec => []Inv
   <1>1. SMInit => Inv  BY InitInv
@@ -19,13 +19,13 @@ THEOREM Safety == SMSpec => []Inv
   <1>. QED  BY <1>1, <1>2, PTL DEF SMSpec
 
 LEMMA StepForward == Inv /\ [SMNext]_svars => (st' >= st /\ st' <= st + 1) \/ UNCHANGED svars
-  BY NonZero DEF Inv, TypeOK, Consistent, SMNext, svars, Connect, Config, Upload, Search, Foreign, Unknown, Close, Outcomes
+  BY NonZero DEF Inv, TypeOK, Consistent, SMNext, svars, Connect, Config, Upload, Search, Foreign, Unknown, Malformed, Close, Outcomes
 
 LEMMA StepCfg == Inv /\ [SMNext]_svars => (cfg # 0 => cfg' = cfg)
-  BY NonZero DEF Inv, TypeOK, Consistent, SMNext, svars, Connect, Config, Upload, Search, Foreign, Unknown, Close, Outcomes
+  BY NonZero DEF Inv, TypeOK, Consistent, SMNext, svars, Connect, Config, Upload, Search, Foreign, Unknown, Malformed, Close, Outcomes
 
 LEMMA StepIdx == Inv /\ [SMNext]_svars => (idx # 0 => idx' = idx)
-  BY NonZero DEF Inv, TypeOK, Consistent, SMNext, svars, Connect, Config, Upload, Search, Foreign, Unknown, Close, Outcomes
+  BY NonZero DEF Inv, TypeOK, Consistent, SMNext, svars, Connect, Config, Upload, Search, Foreign, Unknown, Malformed, Close, Outcomes
 
 THEOREM C10ForwardOnly == SMSpec => ForwardOnly
   <1>1. Inv /\ [SMNext]_svars => [st' >= st /\ st' <= st + 1]_svars  BY StepForward
